@@ -59,6 +59,34 @@ AUXILIARY = [
     ('financepy/products/equity/equity_american_option.py', 'EquityAmericanOption'),
     ('financepy/products/rates/ibor_swap.py', 'IborSwap'),
 ]
+# not anchored either: the classes OUTSIDE the anchors in which the seeded caches of the earlier rounds landed
+# (bond option, FX / equity exotics, credit, the cap/floor and swaption models, deposits and FRAs, the plain curves).
+# They are emitted as `extendedClasses` (never mixed into `classes`, so every statement about the anchored classes is
+# unchanged) and judged by Props/C18c with their own exact exception list.
+EXTENDED = [
+    ('financepy/products/bonds/bond_option.py', 'BondOption'),
+    ('financepy/products/fx/fx_forward.py', 'FXForward'),
+    ('financepy/products/fx/fx_barrier_option.py', 'FXBarrierOption'),
+    ('financepy/products/fx/fx_digital_option.py', 'FXDigitalOption'),
+    ('financepy/products/fx/fx_one_touch_option.py', 'FXOneTouchOption'),
+    ('financepy/products/equity/equity_compound_option.py', 'EquityCompoundOption'),
+    ('financepy/products/equity/equity_chooser_option.py', 'EquityChooserOption'),
+    ('financepy/products/equity/equity_barrier_option.py', 'EquityBarrierOption'),
+    ('financepy/products/equity/equity_digital_option.py', 'EquityDigitalOption'),
+    ('financepy/products/equity/equity_one_touch_option.py', 'EquityOneTouchOption'),
+    ('financepy/products/credit/cds.py', 'CDS'),
+    ('financepy/products/credit/cds_curve.py', 'CDSCurve'),
+    ('financepy/products/credit/cds_basket.py', 'CDSBasket'),
+    ('financepy/models/sabr.py', 'SABR'),
+    ('financepy/models/sabr_shifted.py', 'SABRShifted'),
+    ('financepy/models/black_shifted.py', 'BlackShifted'),
+    ('financepy/models/bachelier.py', 'Bachelier'),
+    ('financepy/models/heston.py', 'Heston'),
+    ('financepy/products/rates/ibor_deposit.py', 'IborDeposit'),
+    ('financepy/products/rates/ibor_fra.py', 'IborFRA'),
+    ('financepy/market/curves/discount_curve.py', 'DiscountCurve'),
+    ('financepy/market/curves/discount_curve_flat.py', 'DiscountCurveFlat'),
+]
 # module-level functions reported as the pseudo-class `<module>` of these files
 ANCHOR_MODULES = ['financepy/utils/date.py']
 
@@ -786,6 +814,146 @@ def _as_load(t):
     return n
 
 
+# ------------------------------------------------------------------------------------ module-level state
+def _base_name(e):
+    while isinstance(e, (ast.Subscript, ast.Attribute)):
+        e = e.value
+    return e.id if isinstance(e, ast.Name) else None
+
+
+def _mutable_display(v):
+    return isinstance(v, (ast.Dict, ast.List, ast.Set, ast.ListComp, ast.DictComp, ast.SetComp)) or (
+        isinstance(v, ast.Call) and isinstance(v.func, ast.Name) and
+        v.func.id in ('dict', 'list', 'set', 'defaultdict', 'OrderedDict', 'deque', 'Counter'))
+
+
+def module_state(root='financepy'):
+    """Every place in EVERY module under financepy/ where a function or method body can change state that outlives
+    the call and belongs to no object the caller holds.  Sorted list of [file, function, kind, name]:
+
+      global=      assignment / deletion of a name declared `global`
+      []= .a= .m() item / attribute store, in-place container call on a module-level name (variable, class, function),
+                   also through a local alias `c = NAME`
+      class[]= class.m()   the same on `self.attr` / `cls.attr` where `attr` is a container created in the CLASS body
+                   (shared by all instances) and never re-bound on `self`
+      default[]= default.m()   the same on a parameter whose DEFAULT value is a mutable display (`def f(x, memo={})`)
+      @decorator   a memoising decorator (`lru_cache`, `cache`, `cached_property`, anything named *memo*)
+      metaclass=   a class created through a metaclass (instance registries such as utils/singleton.py)
+    """
+    res = set()
+    top = os.path.join(REPO, root)
+    for dp, dn, fn in os.walk(top):
+        dn.sort()
+        for f in sorted(fn):
+            if not f.endswith('.py'):
+                continue
+            path = os.path.join(dp, f)
+            rel = os.path.relpath(path, REPO)
+            with open(path, encoding='utf-8') as fh:
+                tree = ast.parse(fh.read(), filename=rel)
+            modnames = set()
+            for st in tree.body:
+                if isinstance(st, (ast.Assign, ast.AnnAssign, ast.AugAssign)):
+                    tg = st.targets if isinstance(st, ast.Assign) else [st.target]
+                    for t in tg:
+                        for n in ast.walk(t):
+                            if isinstance(n, ast.Name):
+                                modnames.add(n.id)
+                elif isinstance(st, (ast.FunctionDef, ast.AsyncFunctionDef, ast.ClassDef)):
+                    modnames.add(st.name)
+
+            def funcs(node, cls=None):
+                for st in getattr(node, 'body', []):
+                    if isinstance(st, (ast.FunctionDef, ast.AsyncFunctionDef)):
+                        yield cls, st
+                    elif isinstance(st, ast.ClassDef):
+                        yield from funcs(st, st)
+
+            for n in ast.walk(tree):
+                if isinstance(n, ast.ClassDef):
+                    for kw in n.keywords:
+                        if kw.arg == 'metaclass':
+                            res.add((rel, n.name, 'metaclass=', ast.unparse(kw.value)))
+            for cls, fd in funcs(tree):
+                q = (cls.name + '.' if cls else '') + fd.name
+                a = fd.args
+                params = [x.arg for x in a.posonlyargs + a.args + a.kwonlyargs]
+                pos = a.posonlyargs + a.args
+                mutable_defaults = {x.arg for x, dv in zip(pos[len(pos) - len(a.defaults):], a.defaults) if _mutable_display(dv)}
+                mutable_defaults |= {x.arg for x, dv in zip(a.kwonlyargs, a.kw_defaults) if dv is not None and _mutable_display(dv)}
+                loc = set(params)
+                if a.vararg:
+                    loc.add(a.vararg.arg)
+                if a.kwarg:
+                    loc.add(a.kwarg.arg)
+                gl = set()
+                for n in ast.walk(fd):
+                    if isinstance(n, ast.Global):
+                        gl.update(n.names)
+                alias = {}
+                for n in ast.walk(fd):
+                    if isinstance(n, ast.Name) and isinstance(n.ctx, (ast.Store, ast.Del)) and n.id not in gl:
+                        loc.add(n.id)
+                    elif isinstance(n, (ast.Import, ast.ImportFrom)):
+                        for al in n.names:
+                            loc.add((al.asname or al.name).split('.')[0])
+                for n in ast.walk(fd):      # local aliases of module-level names:  c = NAME
+                    if isinstance(n, ast.Assign) and isinstance(n.value, ast.Name) and n.value.id in modnames \
+                            and n.value.id not in params:
+                        for t in n.targets:
+                            if isinstance(t, ast.Name):
+                                alias[t.id] = n.value.id
+                class_containers = set()
+                selfname = params[0] if (cls is not None and params) else None
+                if cls is not None:
+                    for st in cls.body:
+                        if isinstance(st, (ast.Assign, ast.AnnAssign)) and st.value is not None and _mutable_display(st.value):
+                            for t in (st.targets if isinstance(st, ast.Assign) else [st.target]):
+                                if isinstance(t, ast.Name):
+                                    class_containers.add(t.id)
+                for d in fd.decorator_list:
+                    txt = ast.unparse(d)
+                    low = txt.lower()
+                    if ('lru_cache' in low or 'memo' in low or 'cached_property' in low or
+                            low in ('cache', 'functools.cache')):
+                        res.add((rel, q, '@decorator', txt))
+
+                def owner(e):
+                    """(kind prefix, name) of the long-lived thing the store goes to, or None"""
+                    b = _base_name(e)
+                    if b is None:
+                        return None
+                    if b in gl or (b in modnames and b not in loc):
+                        return '', b
+                    if b in alias and alias[b] not in loc - {b}:
+                        return '', alias[b]
+                    if b in mutable_defaults:
+                        return 'default', b
+                    if b == selfname or b == 'cls':
+                        x = e
+                        while isinstance(x, (ast.Subscript, ast.Attribute)) and not (
+                                isinstance(x, ast.Attribute) and isinstance(x.value, ast.Name)):
+                            x = x.value
+                        if isinstance(x, ast.Attribute) and x.attr in class_containers:
+                            return 'class', cls.name + '.' + x.attr
+                    return None
+
+                for n in ast.walk(fd):
+                    if isinstance(n, ast.Name) and isinstance(n.ctx, (ast.Store, ast.Del)) and n.id in gl:
+                        res.add((rel, q, 'global=', n.id))
+                    elif isinstance(n, (ast.Subscript, ast.Attribute)) and isinstance(n.ctx, (ast.Store, ast.Del)):
+                        o = owner(n.value)
+                        if o is not None:
+                            if o[0] == 'class' and isinstance(n, ast.Attribute):
+                                continue
+                            res.add((rel, q, o[0] + ('[]=' if isinstance(n, ast.Subscript) else '.' + n.attr + '='), o[1]))
+                    elif isinstance(n, ast.Call) and isinstance(n.func, ast.Attribute) and n.func.attr in MUTATORS:
+                        o = owner(n.func.value)
+                        if o is not None:
+                            res.add((rel, q, o[0] + '.' + n.func.attr + '()', o[1]))
+    return [list(x) for x in sorted(res)]
+
+
 # ------------------------------------------------------------------------------------ driver
 def analyse():
     """{'classes': {Class: {'file', 'ctor': [...], 'class_attrs': [...], 'methods': {name: summary}}},
@@ -804,9 +972,16 @@ def analyse():
         m = module(rel)
         for f in m.funcs:
             roots.append(('f', m.rel, f))
+    for rel, cls in EXTENDED:
+        ci = class_info(rel, cls)
+        if ci is None:
+            raise RuntimeError(f'extended class {cls} not found in {rel}')
+        for m in ci.methods:
+            roots.append(('m', os.path.normpath(rel), cls, m))
     an.run(roots)
-    out = {'classes': {}, 'mutable_globals': [], 'auxiliary': [c for _, c in AUXILIARY]}
-    for rel, cls in ANCHORS + AUXILIARY:
+    out = {'classes': {}, 'extended': {}, 'mutable_globals': [], 'auxiliary': [c for _, c in AUXILIARY],
+           'module_state': module_state()}
+    for rel, cls in ANCHORS + AUXILIARY + EXTENDED:
         ci = class_info(rel, cls)
         methods = {}
         for m in sorted(ci.methods):
@@ -816,8 +991,8 @@ def analyse():
             d['owner'] = ci.methods[m][2]
             methods[m] = d
         ctor = methods.get('__init__', {'writes': []})['writes']
-        out['classes'][cls] = {'file': rel, 'ctor': sorted(ctor), 'class_attrs': sorted(ci.class_attrs),
-                               'methods': methods}
+        out['extended' if (rel, cls) in EXTENDED else 'classes'][cls] = {
+            'file': rel, 'ctor': sorted(ctor), 'class_attrs': sorted(ci.class_attrs), 'methods': methods}
     for rel in ANCHOR_MODULES:
         m = module(rel)
         methods = {}
